@@ -713,7 +713,8 @@ func stateBeginArrayItemOrEmpty(s *Scanner, c byte) state {
 	if c == ']' {
 		return stateFoundArrayEnd(s)
 	}
-	if s.annotation == annotationNone {
+	// blanks, line breaks and annotations between the brackets are no item
+	if s.annotation == annotationNone && !bytes.IsBlank(c) && !s.isAnnotationStart(c) {
 		s.context.ArrayHasItem = true
 	}
 	return stateBeginValue(s, c)
